@@ -5,12 +5,12 @@
 package crdtsim
 
 import (
-	"runtime"
-	"os"
 	"context"
 	"encoding/json"
 	"errors"
 	"fmt"
+	"os"
+	"runtime"
 	"sort"
 	"strings"
 	"sync"
@@ -283,27 +283,28 @@ type replica struct {
 }
 
 type opRec struct {
-	Pin      bool
-	Cid      int
-	Nonce    string
-	Peer     int
-	Accepted bool
-	QueueErr bool
-	At       time.Time
-	Seq      int
+	Pin        bool
+	Cid        int
+	Nonce      string
+	Peer       int
+	Accepted   bool
+	QueueErr   bool
+	At         time.Time
+	Seq        int
 	AfterFault bool // submitted while (or after) a datastore fault was armed on that replica
 }
 
 type world struct {
-	run   *simkit.Run
-	plan  *simkit.Plan
-	net   *simkit.Net
-	reps  []*replica
-	cids  []cid.Cid
-	ops   []*opRec
-	nonce int
-	ctx   context.Context
-	faulted map[int]bool
+	opsMu          sync.Mutex
+	run            *simkit.Run
+	plan           *simkit.Plan
+	net            *simkit.Net
+	reps           []*replica
+	cids           []cid.Cid
+	ops            []*opRec
+	nonce          int
+	ctx            context.Context
+	faulted        map[int]bool
 	lastFaultClear map[int]time.Time
 }
 
@@ -589,7 +590,52 @@ func (w *world) submit(pi int, isPin bool, ci int) {
 		kind = "pin"
 	}
 	rec.Seq = w.run.Ev(fmt.Sprintf("r%d", pi), kind, "cid%d %s -> %v", ci, pin.Name, err)
+	w.opsMu.Lock()
 	w.ops = append(w.ops, rec)
+	k := len(w.ops) - 1
+	w.opsMu.Unlock()
+	// a batch is committed when it reaches its age limit: the batch this operation
+	// joined was opened no later than now, so max_batch_age from now (plus the time
+	// a commit takes) the operation - or a later one on the same CID - has taken
+	// effect here, however many operations keep arriving meanwhile. Judged where
+	// only this replica writes the CID and no datastore fault was armed on it.
+	if rec.Accepted && w.plan.Scenario != "nobatch" && w.plan.Knob("contended", 0) == 0 && !w.faulted[pi] {
+		age := time.Duration(w.plan.Knob("batch_age_ms", 1000)) * time.Millisecond
+		rep := w.reps[pi]
+		go func() {
+			select {
+			case <-time.After(age + 500*time.Millisecond):
+			case <-w.ctx.Done():
+				return
+			}
+			if w.faulted[pi] {
+				return
+			}
+			st, err := w.stateOf(rep)
+			if err != nil {
+				return
+			}
+			got := st[ci]
+			ok := false
+			w.opsMu.Lock()
+			for _, o := range w.ops[k:] {
+				if o.Accepted && o.Cid == ci && o.Peer == pi {
+					v := ""
+					if o.Pin {
+						v = o.Nonce
+					}
+					if v == got {
+						ok = true
+					}
+				}
+			}
+			w.opsMu.Unlock()
+			w.run.Probe("age_limit_checked")
+			if !ok {
+				w.run.Violate("C02/age_limit_exceeded", w.plan.Scenario, "r%d accepted %s (%s cid%d) at %s; max_batch_age (%s) + 500ms later its own pinset still has cid%d=%q: neither this operation nor a later one on that CID has been committed (batching=%s)", pi, rec.Nonce, kind, ci, rec.At.Format("15:04:05.000"), age, ci, got, w.plan.Scenario)
+			}
+		}()
+	}
 }
 
 func (w *world) stateOf(r *replica) (map[int]string, error) {
